@@ -76,6 +76,29 @@ def _grammar(ctx: Ctx):
                 got = G.struct_to_py(res)
                 if got != exp[1]:
                     ctx.fail(f"{s!r} (include_intercept={intercept}) denotes {exp[1]} but was read as {got}", rp, tags)
+        # ---- final ordering by interaction degree (Formula(...) with the same parser): each part is the STABLE sort of the parsed term
+        # set by the number of non-literal factors (a numeric scaling such as the 2 in 2:a does not count)
+        if kind == "ok" and exp[0] == "ok":
+            ctx.oracle_runs += 1
+            try:
+                from formulaic import Formula
+                from formulaic.parser import DefaultFormulaParser
+                P = DefaultFormulaParser(include_intercept=intercept, feature_flags={n for n, b in zip(("twosided", "multipart", "multistage"), fl) if b})
+                F = Formula(s, _parser=P, _nested_parser=P, _context={"__formulaic_variables_available__": avail} if avail is not None else None) \
+                    if "." in s else Formula(s, _parser=P, _nested_parser=P)
+
+                def parts_of(x):
+                    return [x] if not isinstance(x, tuple) else list(x)
+                fd = {k: [[tuple(f.expr for f in t.factors) for t in part] for part in parts_of(v)] for k, v in
+                      (F._structure.items() if hasattr(F, "_structure") else [("root", F)])}
+                for k, v in exp[1].items():
+                    for part, got_part in zip(parts_of(v), fd.get(k, [])):
+                        want_part = sorted(part, key=lambda t: sum(1 for f in t if not G._is_lit(f)))
+                        if [tuple(t) for t in got_part] != [tuple(t) for t in want_part]:
+                            ctx.fail(f"Formula({s!r}) orders the terms of {k} as {got_part}; by interaction degree (stable) they are {want_part}", rp, tags)
+            except Exception as e:
+                if "." not in s:
+                    ctx.fail(f"Formula({s!r}) with the parser that parsed it: {type(e).__name__}: {e}", rp, tags)
         if i < 3:
             ctx.sample({"formula": s, "include_intercept": intercept, "reference": str(exp)[:200]})
     ctx.run_cases("grammar", G.IMPORTS, G.extra_classes(strings), "pcase", "chk_parser extra", lits, descr, shard=250)
